@@ -897,7 +897,19 @@ def run(ctx, rep):
         st = cs.run(flat, kind, ty, is_tmr)
         csteps = [tuple(re.sub(r"^\?tmr\(type_dag\[i\]\.typeArg\[(\d)\]\)$", r"tmr(arg\1)", h) for h in s_) for s_ in st["steps"]]
         compare_recipe("tmr", rname, kind, rust, (st["iv"], csteps))
-    rep.floor("C03.recipe", rep.instances("C03.recipe"), 46)
+    # the witness hash: C hashes dag[i].compactValue (the bit string as carried in the witness stream, i.e. the compact
+    # encoding); Rust's compact_value must collect the compact bits of the value, not the padded ones
+    cv = F.fn("simplicity::merkle::compact_value")
+    c_compact = any("compactValue" in cbody.show(e) for e in [s_[1] for s_ in cbody.find(amr_f["body"], lambda s: s[0] == "expr" and s[1][0] == "call" and str(s[1][1]).endswith("sha256_bitstring"))])
+    if cv is None or not c_compact:
+        rep.anchor("C03.recipe", "merkle::compact_value / sha256_bitstring(&dag[i].compactValue)")
+    else:
+        forms = {c.name for c in cv.calls() if c.name in ("iter_compact", "iter_padded")}
+        if forms == {"iter_compact"}:
+            rep.ok("C03.recipe", "witness hash is over the compact encoding on both sides", None)
+        else:
+            rep.violation("C03.recipe", "compact_value:form", "merkle::compact_value hashes %s of the witness value; C hashes dag[i].compactValue (the compact encoding)" % sorted(forms), cv.where())
+    rep.floor("C03.recipe", rep.instances("C03.recipe"), 47)
 
     # IV bytes
     seen_iv = set()
